@@ -336,7 +336,22 @@ const (
 	c08Fee = 1_000_000
 )
 
+// c08Normalise enforces the generator's preconditions on replayed data: the
+// victim user never signs a MsgRun script written by the attacker (a script
+// runs with its signer's own authority, so whatever it spends is authorised).
+func c08Normalise(c c08Case) c08Case {
+	out := c08Case{Txs: append([]c08Tx{}, c.Txs...)}
+	for i := range out.Txs {
+		tx := &out.Txs[i]
+		if tx.Kind == "attack" && (tx.Ctx%ctxNum == ctxRun || tx.Ctx%ctxNum == ctxGatedRun) {
+			tx.Signer = 0
+		}
+	}
+	return out
+}
+
 func c08Exec(ctx *vk.Ctx, c c08Case) error {
+	c = c08Normalise(c)
 	w := c08NewWorld()
 	prog := w.render(c)
 	gen := ec.GenesisWithBalances(1e12, w.admin, w.att, w.vic)
